@@ -434,7 +434,19 @@ def check_exact_splitter(prog, report):
                              'kernel_2 geometry')
             else:
                 raise AnalysisError('%s: unknown callee %s' % (where, fn))
-        if len(rects) > 1:
+        if len(rects) > 1 and any(
+                r[0] != 'spacetime_integrated_kernel' for r in rects):
+            # closed-form leaves inside a sum: their position is fixed by
+            # R-translate; additivity needs at least the areas to add up
+            ok, why = _area_conserved(state, rects, (XA, XB, YA, YB))
+            report.check(ok, 'R-partition',
+                         'spacetime_integrated_kernel@`%s`' %
+                         text(st.value)[:40].replace('\n', ' '), where,
+                         'the areas of the pieces handed on must add up to '
+                         'the area of the parent rectangle: ' + why,
+                         construct='spacetime_integrated_kernel: partition '
+                         '(areas)')
+        elif len(rects) > 1:
             rr = [('rec', r[1], r[2]) for r in rects]
             ok, why = _tiles(state, rr, (XA, XB, YA, YB))
             report.check(ok, 'R-partition',
@@ -909,3 +921,44 @@ def order_type_table(prog, report):
     report.extra['order_type_table'] = table
     report.floor('R-order-types', 40)
     return n_classes
+
+
+def _area_conserved(state, rects, parent):
+    import sympy as sp
+
+    def poly(l):
+        e = sp.Rational(l.k.numerator, l.k.denominator)
+        for a_, v in l.c.items():
+            e += sp.Rational(v.numerator, v.denominator) * sp.Symbol(
+                a_, real=True)
+        return e
+    XA, XB, YA, YB = (poly(x) for x in parent)
+    total = 0
+    for fn, sp_, call in rects:
+        v = [poly(x) for x in sp_]
+        if fn == 'spacetime_integrated_kernel':
+            total += (v[1] - v[0]) * (v[3] - v[2])
+        elif fn == 'spacetime_integrated_kernel_1':
+            total += v[0]**2
+        elif fn in ('spacetime_integrated_kernel_2',
+                    'spacetime_integrated_kernel_3'):
+            total += v[0] * v[1]
+        elif fn == 'spacetime_integrated_kernel_4':
+            total += v[0] * (v[2] - v[1])
+        else:
+            return False, 'unknown piece %s' % fn
+    diff = sp.expand(total - (XB - XA) * (YB - YA))
+    # use the path equalities (every case must make the difference vanish)
+    for case in state.cases:
+        d = diff
+        for f in case:
+            if f[0] == 'lin' and f[2] == '==' and f[1].c:
+                v0 = sorted(f[1].c)[0]
+                sol = sp.solve(poly(f[1]), sp.Symbol(v0, real=True))
+                if sol:
+                    d = sp.expand(d.subs(sp.Symbol(v0, real=True), sol[0]))
+        if d != 0:
+            return False, 'area defect %s under %s' % (
+                d, '[' + ', '.join(str(x[1]) for x in case
+                                   if x[0] == 'lin' and x[2] == '==') + ']')
+    return True, 'sum of areas equals (x_b - x_a)(y_b - y_a)'
